@@ -20,17 +20,17 @@ theorem SameButRecs.setRec (w : World) (f : Nat) (r : Rec) : SameButRecs w (setR
 theorem SameButRecs.ev (w : World) (e : Ev) : SameButRecs w (ev w e) :=
   ⟨rfl, rfl, rfl, rfl, rfl, rfl, rfl⟩
 
-theorem goDeps_frame (chk : World → List Nat → Nat → DR × World × List Nat)
-    (hchk : ∀ w c s, SameButRecs w (chk w c s).2.1) (hasCsum : Bool) (f : Nat) :
-    ∀ (ds : List Dep) (w : World) (cache must : List Nat),
+theorem goDeps_frame (chk : World → List Nat → Nat → Rec → DR × World × List Nat)
+    (hchk : ∀ w c s r, SameButRecs w (chk w c s r).2.1) (hasCsum : Bool) (f : Nat) :
+    ∀ (ds : List (Dep × Rec)) (w : World) (cache must : List Nat),
       SameButRecs w (goDeps chk hasCsum f ds w cache must).2.1
   | [], w, cache, must => by simp [goDeps, SameButRecs.refl]
-  | d :: ds, w, cache, must => by
+  | (d, snap) :: ds, w, cache, must => by
     rw [goDeps]
     by_cases hm : d.modeM = true
     · simp only [hm, if_true]
-      have h1 := hchk w cache d.source
-      generalize chk w cache d.source = r at h1
+      have h1 := hchk w cache d.source snap
+      generalize chk w cache d.source snap = r at h1
       obtain ⟨sub, w1, c1⟩ := r
       cases sub with
       | cyclic => exact h1
@@ -54,13 +54,13 @@ theorem goDeps_frame (chk : World → List Nat → Nat → DR × World × List N
 /-- The dirtiness check only writes records (and the ghost trace): no file, dependency row,
 run id or clock changes. -/
 theorem isDirty_frame (ood : Bool) (R : Nat) :
-    ∀ (fuel : Nat) (w : World) (cache : List Nat) (f mx : Nat) (seen : List Nat),
-      SameButRecs w (isDirty ood R fuel w cache f mx seen).2.1
-  | 0, w, cache, f, mx, seen => by simp [isDirty, SameButRecs.refl]
-  | fuel + 1, w, cache, f, mx, seen => by
+    ∀ (fuel : Nat) (w : World) (cache : List Nat) (f mx : Nat) (seen : List Nat) (pre : Option Rec),
+      SameButRecs w (isDirty ood R fuel w cache f mx seen pre).2.1
+  | 0, w, cache, f, mx, seen, pre => by simp [isDirty, SameButRecs.refl]
+  | fuel + 1, w, cache, f, mx, seen, pre => by
     have hg : ∀ mx' hc ds, SameButRecs w (goDeps
-        (fun w cache s => isDirty ood R fuel w cache s mx' (f :: seen)) hc f ds w cache []).2.1 :=
-      fun mx' hc ds => goDeps_frame _ (fun w c s => isDirty_frame ood R fuel w c s _ _) hc f ds w cache []
+        (fun w cache s snap => isDirty ood R fuel w cache s mx' (f :: seen) (some snap)) hc f ds w cache []).2.1 :=
+      fun mx' hc ds => goDeps_frame _ (fun w c s r => isDirty_frame ood R fuel w c s _ _ _) hc f ds w cache []
     simp (config := {zeta := true, zetaHave := true}) only [isDirty]
     repeat' split
     all_goals try (first | exact SameButRecs.refl w | exact SameButRecs.setRec w f _)
